@@ -2213,7 +2213,10 @@ DLLEXPORT int tj3DecompressToYUVPlanes8(tjhandle handle,
     ph[i] = tj3YUVPlaneHeight(i, dinfo->output_height, this->subsamp);
     if (iw[i] != pw[i] || ih != ph[i]) usetmpbuf = 1;
     th[i] = compptr->v_samp_factor * dctsize;
-    tmpbufsize += iw[i] * th[i];
+    /* With IDCT scaling, the plane width can exceed the width of the rows
+       that the decompressor produces, and pw[i] samples are copied out of
+       each temporary row. */
+    tmpbufsize += MAX(iw[i], pw[i]) * th[i];
     if ((outbuf[i] = (JSAMPROW *)malloc(sizeof(JSAMPROW) * ph[i])) == NULL)
       THROW("Memory allocation failure");
     ptr = dstPlanes[i];
@@ -2225,13 +2228,16 @@ DLLEXPORT int tj3DecompressToYUVPlanes8(tjhandle handle,
   if (usetmpbuf) {
     if ((_tmpbuf = (JSAMPLE *)MALLOC(sizeof(JSAMPLE) * tmpbufsize)) == NULL)
       THROW("Memory allocation failure");
+    /* Rows and columns that the decompressor does not produce are copied into
+       the padding of the destination planes. */
+    memset(_tmpbuf, 0, sizeof(JSAMPLE) * tmpbufsize);
     ptr = _tmpbuf;
     for (i = 0; i < dinfo->num_components; i++) {
       if ((tmpbuf[i] = (JSAMPROW *)malloc(sizeof(JSAMPROW) * th[i])) == NULL)
         THROW("Memory allocation failure");
       for (row = 0; row < th[i]; row++) {
         tmpbuf[i][row] = ptr;
-        ptr += iw[i];
+        ptr += MAX(iw[i], pw[i]);
       }
     }
   }
